@@ -586,6 +586,17 @@ def real_select(s: str):
         return ("exc", type(e).__name__)
 
 
+_WANT_CACHE: dict = {}
+
+
+def want_protocol(s: str):
+    """The protocol the property asks for after `s` was reported; None = the report must be rejected."""
+    if s not in _WANT_CACHE:
+        rel = ref_select(s)
+        _WANT_CACHE[s] = rel if rel is not None else (lambda w: w[1] if w[0] == "ok" else None)(av_select(s)[0])
+    return _WANT_CACHE[s]
+
+
 def run_c05(ctx) -> Corr:
     corr = Corr("C05", "get_protocol over the complete grid major{0,1,2,3,10} x minor{0..5,10} x [patch] x [build] (196 release "
                 "strings), a structured corpus of about 300 version strings of every awesomeversion strategy (plain integers, "
@@ -595,7 +606,13 @@ def run_c05(ctx) -> Corr:
                 "exception class), strategy and each of the five comparisons compared with the Lean model of awesomeversion; a "
                 "gateway fed version replies / gateway presentations with these strings in all orders mixed with other traffic, "
                 "and the type gate over every type number -1..40 x 5 versions x {internal, stream}, compared on the version view "
-                "(outcome class, reported version, active protocol). Oracle = numeric major.minor selection on the release grammar, "
+                "(outcome class, reported version, active protocol); gateways configured with a persistence file run through several "
+                "sessions on one file (file absent / empty / aiomysensors or pymysensors layout, with and without the gateway's own "
+                "node 0 carrying a selectable or unselectable version, other nodes; a new Gateway object per run or the same object "
+                "entered again; type-gate probes and traffic before any version report, then reports): after entering, after every "
+                "operation and after leaving, the reported version must be the last accepted report seen by that object (None for a "
+                "new object) and the active protocol the one selected for it, the gate judged against that protocol. "
+                "Oracle = numeric major.minor selection on the release grammar, "
                 "and on every string the newest key the string is not below in awesomeversion's order. non-trivial = distinct "
                 "version string or (version, type) pair")
     grid = version_grid()
@@ -673,14 +690,7 @@ def run_c05(ctx) -> Corr:
         h.ops.append(("recv", "1;255;3;0;2;2", (), gw.DEFAULT_TIME))
         hists.append(h)
     impl = run_both(hists, corr, ctx, "version", "version view")
-    sel_cache = {}
-
-    def want_of(s):
-        """The protocol the property asks for after `s` was reported; None = the report must be rejected."""
-        if s not in sel_cache:
-            rel = ref_select(s)
-            sel_cache[s] = rel if rel is not None else (lambda w: w[1] if w[0] == "ok" else None)(av_select(s)[0])
-        return sel_cache[s]
+    want_of = want_protocol
 
     for h, io in zip(hists, impl):
         for i, op in enumerate(h.ops):
@@ -709,17 +719,20 @@ def run_c05(ctx) -> Corr:
                     if want is not None and not op[2] and (o["pv"], o["proto"]) != (f[5], want):
                         corr.violate("an accepted version report did not install the matching protocol", {**case, "want": want})
                         break
-                if f is not None and f[2] == 3 and f[1] == 255 and not op[2] and before["pv"] is not None:
+                if f is not None and f[2] == 3 and f[1] == 255 and not op[2]:
                     exists = str(f[4]) in proto_tables(before["proto"])["internal"]
                     if exists == (o["out"] == "err unsupported"):
                         corr.violate("internal type gate: a type of the active protocol refused, or an unknown one accepted", case)
                         break
-                if f is not None and f[2] == 4 and f[1] == 255 and not op[2] and before["pv"] is not None and f[0] in before["nodes"]:
+                if f is not None and f[2] == 4 and f[1] == 255 and not op[2] and f[0] in before["nodes"]:
                     exists = str(f[4]) in proto_tables(before["proto"])["stream"]
                     if exists == (o["out"] == "err unsupported"):
                         corr.violate("stream type gate: a type of the active protocol refused, or an unknown one accepted", case)
                         break
     account(corr, hists, impl, lambda h, op, before, o: (before["pv"], before["proto"]) != (o["pv"], o["proto"]) or "unsupported" in o["out"])
+    # sessions of gateways configured with a persistence file: what an earlier run left on disk is not a version report
+    from . import versessions
+    versessions.run(corr, ctx, grid, short, want_protocol, fields_of, proto_tables, project)
     corr.exhaustive = False
     return corr
 
